@@ -39,6 +39,9 @@ fn run_one(log: &mut Log, tag: &str, cap: usize, cost: &[Vec<u32>], qs: &[Q]) {
     if !log.begin(tag, json!({"cap": cap, "cost": cj})) {
         return;
     }
+    if cost.iter().enumerate().any(|(i, r)| r[i] != 0) {
+        log.oblige("cost_nonzero_diagonal"); // "a symbol does not even match itself"
+    }
     if cost.is_empty() {
         events(log, Ukkonen::with_capacity(cap, unit_cost), qs);
     } else {
